@@ -14,6 +14,7 @@ from concurrent.futures import ThreadPoolExecutor
 SRC = sys.argv[1] if len(sys.argv) > 1 else "/tmp/seed_out4"
 DST = "/verif/equivalent"
 PY = "/venv/bin/python"
+ROUND = os.environ.get("EQUIV_ROUND", "r4")
 
 
 def run(cmd, cwd=None, env=None, timeout=1800):
@@ -26,7 +27,7 @@ def run(cmd, cwd=None, env=None, timeout=1800):
 
 def one(item):
     prop, ek, d = item
-    sid = "%s-r4%s" % (prop, ek)
+    sid = "%s-%s%s" % (prop, ROUND, ek)
     out = {"id": sid}
     patch, chk = os.path.join(d, "patch.diff"), os.path.join(d, "check.py")
     if not (os.path.exists(patch) and os.path.exists(chk)):
@@ -79,7 +80,7 @@ def main():
         for ek in sorted(os.listdir(pd)):
             d = os.path.join(pd, ek)
             if os.path.isdir(d) and ek.startswith("e"):
-                sid = "%s-r4%s" % (prop, ek)
+                sid = "%s-%s%s" % (prop, ROUND, ek)
                 if only and prop not in only and sid not in only:
                     continue
                 if os.path.exists(os.path.join(DST, sid, "meta.json")) and not only:
